@@ -216,6 +216,10 @@ func (b *B) Pow(x *N, e uint64) *N {
 	return r
 }
 
+// ConcreteUF, when it has an entry for a function name, replaces the pseudo-random interpretation
+// in Eval by the real function (used by replays, where the reference must compute real hashes).
+var ConcreteUF = map[string]func(idx int, args []*big.Int) *big.Int{}
+
 // UFEval is the common pseudo-random interpretation of uninterpreted functions used when both
 // the implementation and the reference DAG are evaluated at sample points.
 func UFEval(name string, idx int, bigMod bool, args []*big.Int) *big.Int {
@@ -321,7 +325,11 @@ func Eval(n *N, env func(v any) *big.Int, memo map[*N]*big.Int) *big.Int {
 			for i, a := range x.Args {
 				as[i] = memo[a]
 			}
-			v = UFEval(x.Name, x.Idx, x.BigMod, as)
+			if cf, ok := ConcreteUF[x.Name]; ok {
+				v = cf(x.Idx, as)
+			} else {
+				v = UFEval(x.Name, x.Idx, x.BigMod, as)
+			}
 		}
 		memo[x] = v
 		st = st[:len(st)-1]
